@@ -582,9 +582,6 @@ func c16Paths(p *core.Program, r *core.Report) {
 				return true
 			})
 			for _, pa := range ps {
-				if pa.Has("CUT") {
-					continue
-				}
 				stopped := false
 				for _, ev := range pa {
 					if ev.Kind == "COMM" && strings.Contains(ev.Arg, "Done()") {
